@@ -497,7 +497,7 @@ pub fn run(ctx: &Ctx) -> Report {
          non-trivial = >=2 markers with a prefix-related name pair, a chain of >=2 transformers, or markers in two of {path, host, header}; distinct by case hash",
     );
     rep.assume("acceptance is judged on the string as the normalised request carries it (values are ASCII in paths; hosts and header values are lower-cased under the respective flag); instantiated values contain no '@'; a marker name occurs in one place only; match_regex header conditions are searched (not anchored) by design, so rejected header values contain no accepted fragment; the request carries one header of the conditioned name; heck implements the three case transformers (trusted); slice counts characters");
-    rep.add(run_part(ctx, "markers", ctx.cases(40_000, 2_000_000), strategy, check, &[]));
+    rep.add(run_part(ctx, "markers", ctx.cases(200_000, 8_000_000), strategy, check, &[]));
     rep
 }
 
